@@ -202,12 +202,11 @@ func (dts *DataTypeService) findMetadata(key []byte, dt dataType) (*metadata, er
 	if err == bitcask.ErrKeyNotFound {
 		exist = false
 	} else {
-		// key 存在, 进行解码
-		meta = decodeMetadata(metaBuf)
-		// 判断数据类型是否正确
-		if meta.dataType != dt {
+		// key 存在: 先判断数据类型是否正确, 其他类型的 value 并非元数据格式, 不得按元数据解码
+		if len(metaBuf) == 0 || metaBuf[0] != dt {
 			return nil, ErrWrongTypeOperation
 		}
+		meta = decodeMetadata(metaBuf)
 		// 判断是否过期
 		if meta.expire != 0 && meta.expire <= time.Now().UnixNano() {
 			exist = false // 过期仍视为不存在
